@@ -249,18 +249,23 @@ def part_b(run, n_random, n_comp, sizes):
         meta.append(('composite:' + kind, net, v0, status, order, vals, vals2, True))
     if not traces:
         return
-    tf = run.scratch / 'sort_traces.json'
-    tf.write_text(json.dumps(traces))
     cfg = 'CONSTANTS\n MaxPasses = 1000\nINIT Init\nNEXT Next\nINVARIANT TypeOK\n'
-    res = run_tlc('Trace_Sort', cfg, run.scratch / 'trsort', env={'TRACE_FILE': str(tf)}, timeout=3000)
-    run.add_tlc(res)
+    records = []
+    CH = 3000
+    for c0 in range(0, len(traces), CH):
+        tf = run.scratch / ('sort_traces_%d.json' % c0)
+        tf.write_text(json.dumps(traces[c0:c0 + CH]))
+        res = run_tlc('Trace_Sort', cfg, run.scratch / ('trsort_%d' % c0), env={'TRACE_FILE': str(tf)}, timeout=3000)
+        run.add_tlc(res)
+        records += [[r[0], r[1] + c0] + list(r[2:]) for r in res.records]
+        tf.unlink()
     judged = set()
-    for rec in res.records:
+    for rec in records:
         if rec[0] == 'J':
             judged.add(rec[1])
     if len(judged) != len(traces):
         raise MachineryError('Trace_Sort judged %d of %d traces' % (len(judged), len(traces)))
-    for rec in res.records:
+    for rec in records:
         if rec[0] == 'J':
             continue
         tid = rec[1]
@@ -450,7 +455,7 @@ def check(run):
         part_a(run, 3, 1, ['And2', 'Or2', 'Not', 'Buf', 'BitsLSBF', 'Constant'], [1, 2], 6)
         part_a(run, 4, 1, ['And2', 'Not'], [2], 7, mod=16)
         part_a(run, 4, 1, ['Not', 'BitsLSBF', 'Constant'], [1, 2], 7, mod=4)
-        part_b(run, 30000, 2000, [4, 5, 6, 8, 12, 20, 40])
+        part_b(run, 12000, 1500, [4, 5, 6, 8, 12, 20, 30])
         part_c(run, [3, 10, 50, 200, 500, 999, 1000], 1001)
         part_d(run, 6000, [3, 4, 5, 6, 8, 12, 20])
     run.assumptions += ['wire values of the model are at most 2 bits; py4hw has no width-dependent path in the sorter',
